@@ -29,6 +29,20 @@ Theorem C02_structural_agreement :
          (v : value L) (k : keys) (pre : list call),
     R orc (fst (fst (run wr rd orc o t v k))) (fst (trav nofail t k pre)).
 Proof. exact structural_agreement. Qed.
+(* the relation, spelled out (so that a weaker R cannot go unnoticed): structural failures coincide
+   exactly; a value-level failure after d consumed keys can only pre-empt a traversal outcome that
+   consumed at least d keys (for NotFound at depth d0: d < d0, the d0-th key being the offending one) *)
+Theorem C02_R_unfold : forall orc r rt, R orc r rt =
+  match r with
+  | ROk d => exists d0, rt = ROk d0 /\ (norepl orc -> d = d0)
+  | RErr (TooShort d) => rt = RErr (TooShort d)
+  | RErr (NotFound d) => rt = RErr (NotFound d)
+  | RErr (TooLong d) => rt = RErr (TooLong d)
+  | RErr (Absent d) | RErr (Access d _) | RErr (Invalid d _) | RErr (Inner d) =>
+      match rt with RErr Unreachable => True | RErr (NotFound d0) => d < d0 | _ => d <= rdepth rt end
+  | RErr Unreachable => True
+  end.
+Proof. intros orc r rt. destruct r as [d|[]]; reflexivity. Qed.
 Theorem C02_traversal_is_structural :
   forall (cbf : list call -> call -> bool) (t : node) (k : keys) (pre : list call),
     match fst (trav cbf t k pre) with
@@ -65,3 +79,4 @@ Print Assumptions C02_ops_refine_walk.
 Print Assumptions C02_ops_are_walk.
 Print Assumptions C02_structural_agreement.
 Print Assumptions C02_traversal_is_structural.
+Print Assumptions C02_R_unfold.
